@@ -1723,6 +1723,12 @@ impl Model {
             });
         }
 
+        // A constraint rejected at posting time invalidates the model for every entry point
+        // (solve/minimize/maximize check this themselves; enumerate and enumerate_with_stats come through here)
+        if !self.constraint_validation_errors.is_empty() {
+            return Err(self.constraint_validation_errors[0].clone());
+        }
+
         // STEP 0: Infer bounds for unbounded variables using constraint AST analysis
         // This happens BEFORE materialization so we can analyze all constraints
         // and extract better bounds than the simple variable-context inference at creation time
